@@ -379,6 +379,141 @@ def run_model_lb(ctx, hists, tag):
     return rc, R, M, flat
 
 
+def gen_ct_history(r, name):
+    """contiguous elements only, with the library's layout (end-of-file offset + all descriptors) dumped around
+    every write / truncate / create: stepwise correspondence with coq/HFileModel.v (hwrite's append-at-end versus
+    promote decision, hcreate = allocation at the end of file, htrunc)"""
+    lines = ["history " + name, "open 0 %d %d" % (r.choice([4, 5, 16]), r.choice([0, 1]))]
+    keys, handles = [], {}      # handles: slot -> dict(key, app)
+    for _ in range(r.randrange(10, 30)):
+        a = r.random()
+        if (a < 0.25 or not handles) and len(keys) < 4 and len(handles) < 6:
+            k = (r.choice(TAGS), len(keys) + 1)
+            keys.append(k)
+            h = max(list(handles) + [-1]) + 1
+            n = r.choice([0, 1, 5, 8, 20])
+            lines += ["layout 0", "startwrite %d 0 %d %d %d" % (h, k[0], k[1], n), "layout 0"]
+            handles[h] = dict(key=k, app=False)
+            continue
+        if not handles:
+            continue
+        h = r.choice(list(handles))
+        if a < 0.40:
+            lines.append("appendable %d" % h)
+            handles[h]["app"] = True
+        elif a < 0.80:
+            if r.random() < 0.6:
+                lines.append("seek %d %d %d" % (h, r.randrange(0, 25), 0))
+            lines += ["tell %d" % h, "layout 0", "write %d %s" % (h, hexs(rbytes(r, r.choice([1, 2, 5, 9, 30])))), "layout 0"]
+        elif a < 0.90:
+            lines += ["layout 0", "trunc %d %d" % (h, r.randrange(0, 12)), "layout 0"]
+        else:
+            lines.append("end %d" % h)
+            del handles[h]
+    return lines
+
+
+def check_ct(ctx, hists):
+    """returns (steps compared, list of mismatch descriptions)"""
+    exe = ctx.harness("drive_h", ["drive_h.c"])
+    mod = ctx.model("hfile_model", ["hfile_main.ml"], ["hfile_model"])
+    wd = os.path.join(ctx.bdir, "harness", "c01ct-%d" % os.getpid())
+    os.makedirs(wd, exist_ok=True)
+    p = os.path.join(wd, "in.hist")
+    flat = [l for h in hists for l in h]
+    open(p, "w").write("\n".join(flat) + "\n")
+    rc, R = vc.run_lines(exe, p, timeout=900, args=[wd])
+    strip = lambda l: l.split(" ", 1)[1] if " " in l else l
+    R = [strip(l) for l in R if re.match(r"^\d+ ", l)]
+    if len(R) != len(flat):
+        shutil.rmtree(wd, ignore_errors=True)
+        return 0, ["harness produced %d lines for %d operations (rc=%d)" % (len(R), len(flat), rc)]
+
+    def lay(line):
+        t = line.split()
+        if t[0] != "ok":
+            return None
+        d = {}
+        for x in t[2:]:
+            tag, ref, off, ln = map(int, x.split(":"))
+            d[(tag & ~0x4000 if not tag & 0x8000 else tag, ref)] = (tag, off, ln)
+        return int(t[1]), d
+
+    steps, slot_key, app = [], {}, {}
+    ndds_of, cur_ndds = {}, 16
+    for i, l in enumerate(flat):
+        t = l.split()
+        if t[0] == "open":
+            cur_ndds = int(t[2])
+        ndds_of[i] = cur_ndds
+        if t[0] == "history":
+            slot_key, app = {}, {}
+        elif t[0] == "startwrite":
+            slot_key[int(t[1])] = (int(t[3]), int(t[4]))
+            app[int(t[1])] = False
+            b, a = lay(R[i - 1]), lay(R[i + 1])
+            if b and a and R[i] == "ok" and slot_key[int(t[1])] not in b[1]:
+                steps.append((i, "C %d %d" % (b[0], int(t[5])), ("create", a, slot_key[int(t[1])])))
+        elif t[0] == "appendable":
+            app[int(t[1])] = True
+        elif t[0] == "write" and flat[i - 1].startswith("layout") and flat[i - 2].startswith("tell"):
+            h = int(t[1])
+            b, a = lay(R[i - 1]), lay(R[i + 1])
+            key = slot_key.get(h)
+            if not b or not a or key not in b[1] or not R[i - 2].startswith("ok"):
+                continue
+            tag, off, ln = b[1][key]
+            if tag & 0x4000 or off < 0:
+                continue            # already special, or a length-less new element: outside this model
+            pos = int(R[i - 2].split()[1])
+            n = 0 if t[2] == "-" else len(t[2]) // 2
+            steps.append((i, "W %d %d %d %d %d %d" % (off, ln, b[0], pos, 1 if app.get(h) else 0, n), ("write", a, key)))
+        elif t[0] == "trunc" and flat[i - 1].startswith("layout"):
+            h = int(t[1])
+            b, a = lay(R[i - 1]), lay(R[i + 1])
+            key = slot_key.get(h)
+            if not b or not a or key not in b[1]:
+                continue
+            tag, off, ln = b[1][key]
+            if tag & 0x4000 or off < 0:
+                continue
+            steps.append((i, "T %d %d %d %d" % (off, ln, b[0], int(t[2])), ("trunc", a, key)))
+    q = os.path.join(wd, "steps.in")
+    open(q, "w").write("\n".join(x[1] for x in steps) + "\n")
+    rcm, M = vc.run_lines(mod, q, timeout=300)
+    shutil.rmtree(wd, ignore_errors=True)
+    bad = []
+    if rcm != 0 or len(M) != len(steps):
+        return 0, ["model driver failed rc=%d" % rcm]
+    for (i, inp, (kind, after, key)), m in zip(steps, M):
+        r = R[i]
+        fend_a, dds_a = after
+        ent = dds_a.get(key)
+        mt = m.split()
+        ok = True
+        if kind == "create":
+            # HTPcreate may first have to add a descriptor block (also allocated at the end of the file): the
+            # element then starts one DD block (2 + 4 + 12 * ndds bytes) later; everything else as the model says
+            ok = False
+            if ent is not None and mt[0] == "ok":
+                shift = ent[1] - int(mt[1])
+                ok = shift in (0, 6 + 12 * ndds_of[i]) and ent[2] == int(mt[2]) and fend_a == int(mt[3]) + shift
+        elif kind == "write":
+            if mt[0] == "fail":
+                ok = r == "fail"
+            elif mt[0] == "promote":
+                ok = r.startswith("ok") and ent is not None and bool(ent[0] & 0x4000)
+            else:
+                ok = r == "ok %s" % mt[1] and ent is not None and not ent[0] & 0x4000 and \
+                    ent[2] == int(mt[2]) and fend_a == int(mt[3])
+        else:
+            ok = (r == "fail") if mt[0] == "fail" else (r == "ok %s" % mt[1] and ent is not None and ent[2] == int(mt[1]))
+        if not ok:
+            bad.append("op #%d %r: observed state+op %r, model predicts %r, library answered %r and left %r (end of file %d)"
+                       % (i, flat[i][:60], inp, m, r, ent, fend_a))
+    return len(steps), bad
+
+
 def match(r, s):
     """R line vs S line (same line number already stripped).  '..' in S is a wildcard byte."""
     if s == "nospec" or s == "skip" or s == "history":
@@ -603,6 +738,17 @@ def run(ctx):
             ctx.violation("linked-block correspondence broken at: %s" % flatl[bad], "\n".join(txt), found=j is not None)
     ctx.corr("HLP~HBlocksModel", histories=len(lbh), operations=len(flatl), distinct_table_shapes=len(tables_seen),
              mismatching_histories=lb_bad)
+    # ---- R vs M, stepwise: contiguous path (allocation at end of file, append-or-promote decision, Htrunc) ----
+    nct = 120 if ctx.tier == "quick" else 2500
+    cth = [gen_ct_history(r, "ct%d" % i) for i in range(nct)]
+    nsteps, ctbad = check_ct(ctx, cth)
+    for h in cth:
+        ctx.case(tuple(h[1:]), True)
+    if ctbad:
+        ctx.violation("contiguous-path correspondence (HFileModel) broken: " + ctbad[0][:200],
+                      "# C01: stepwise library-vs-model check of hfile.c's contiguous path (coq/HFileModel.v)\n" +
+                      "\n".join("# " + b for b in ctbad[:10]), found=False, suffix="txt")
+    ctx.corr("hfile~HFileModel", histories=len(cth), steps_compared=nsteps, mismatches=len(ctbad))
     if rc != 0 and nviol == 0:
         ctx.violation("harness exited with rc=%d" % rc, "\n".join(flat[-40:]), found=True)
     ctx.corr("Hxxx~EStoreSpec", histories_matching_known_findings=known_hists, histories=len(hists), operations=len(flat), op_mix=opmix, library_fail_results=fails_r,
